@@ -6,6 +6,7 @@
  *   P        record the parent's (the shell's) descriptor table into $OBS_DIR/<tag>.pfds
  *   R        read stdin to end-of-file and save it raw into $OBS_DIR/<tag>.stdin     F  the same, copying it to stdout
  *   S<text>  save text into $OBS_DIR/<tag>.S
+ *   c        copy stdin to stdout until end-of-file (or until the write fails), recording nothing
  *   r        read stdin to end-of-file; byte count and FNV-1a hash go to $OBS_DIR/<tag>.in
  *   f        forward: read stdin to EOF copying every byte to stdout (count/hash recorded as for r)
  *   w<N>     write N pattern bytes to stdout (pattern: byte i = (i*131 + seed) & 0xff | never '\0'), seed from tag
@@ -96,7 +97,7 @@ static int seed_of(const char *t) { unsigned s = 7; while (*t) s = (s * 31 + (un
 
 static void slurp(int forward, int save) {
     int sv = -1;
-    if (save) { char sp[1024]; path(sp, sizeof sp, "stdin"); sv = open(sp, O_WRONLY | O_CREAT | O_TRUNC | O_CLOEXEC, 0644); }
+    if (save == 1) { char sp[1024]; path(sp, sizeof sp, "stdin"); sv = open(sp, O_WRONLY | O_CREAT | O_TRUNC | O_CLOEXEC, 0644); }
     static char buf[65536];
     uint64_t h = 1469598103934665603ULL, n = 0;
     for (;;) {
@@ -144,6 +145,7 @@ int main(int argc, char **argv) {
     for (int i = 2; i < argc; i++) {
         const char *o = argv[i];
         if (o[0] == 'P') { snprintf(p, sizeof p, "/proc/%d/fd", (int)getppid()); scan(p, "pfds", 0); }
+        else if (o[0] == 'c') slurp(1, 2);
         else if (o[0] == 'r') slurp(0, 0);
         else if (o[0] == 'R') slurp(0, 1);
         else if (o[0] == 'F') slurp(1, 1);
